@@ -14,7 +14,7 @@ if "plan" in spec:
             _d = os.path.dirname(os.path.abspath(_st[1]))
             if _d not in sys.path:
                 sys.path.insert(0, _d)
-    from nada_dsl.compiler_frontend import nada_dsl_to_nada_mir
+    from nada_dsl.compiler_frontend import nada_dsl_to_nada_mir, nada_compile
     from nada_dsl.compile import compile_script
     outs, mirs, log = {}, {}, []
     for st in spec["plan"]:
@@ -25,7 +25,7 @@ if "plan" in spec:
                 exec(compile(src, st[1], "exec"), ns)
                 outs[st[2]] = ns["nada_main"]()
             elif st[0] == "compile":
-                mirs[st[1]] = {"ok": nada_dsl_to_nada_mir(outs[st[1]])}
+                mirs[st[1]] = {"ok": json.loads(nada_compile(outs[st[1]]))}      # the public entry point (what compile_script calls)
             else:
                 mirs[st[2]] = {"ok": json.loads(compile_script(st[1]).mir)}
             log.append("ok")
@@ -42,7 +42,7 @@ for _p in spec["steps"] + [spec["probe"]]:
     if _d not in sys.path:
         sys.path.insert(0, _d)
 try:
-    from nada_dsl.compiler_frontend import nada_dsl_to_nada_mir
+    from nada_dsl.compiler_frontend import nada_dsl_to_nada_mir, nada_compile
     if spec.get("timers"):
         from nada_dsl.timer import timer
         timer.enable()
@@ -53,7 +53,7 @@ try:
             ns = {"__name__": "prog"}
             exec(compile(src, path, "exec"), ns)
             outs = ns["nada_main"]()
-            nada_dsl_to_nada_mir(outs)
+            nada_compile(outs) if len(log) % 2 else nada_dsl_to_nada_mir(outs)      # both entry points take turns
             log.append("ok")
         except Exception as e:    # noqa  -- an earlier program failing is part of the history
             log.append(type(e).__name__)
@@ -61,7 +61,7 @@ try:
     ns = {"__name__": "prog"}
     exec(compile(src, spec["probe"], "exec"), ns)
     outs = ns["nada_main"]()
-    mir = nada_dsl_to_nada_mir(outs)
+    mir = json.loads(nada_compile(outs)) if spec.get("probe_twice") else nada_dsl_to_nada_mir(outs)
     if spec.get("probe_twice"):
         # the same traced outputs compiled a second time in this process
         mir = nada_dsl_to_nada_mir(outs)
